@@ -4,13 +4,44 @@ import json, os
 V = os.path.dirname(os.path.dirname(os.path.abspath(__file__)))
 props = [json.loads(l)["id"] for l in open(os.path.join(V, "properties.jsonl"))]
 
+def sysnote(extra=""):
+    return ("Trusted: TLC; the recorder's projection (provenance ids via wrapped prior_transform/log_likelihood, order ranks, content tags, re-computation at the recorded temperature with the library's own functions); hooks placed after the state change. " + extra)
+
 CHECKS = {
+ "C06": dict(level="model_checking",
+    text="Resample.tla models the systematic comb as the implementation's loop over rational cumulative weights and the multinomial draw as inverse-CDF lookup; TLC enumerates every breakpoint and every cell of the offset partition (so every u0 in [0,1)) incl. the tolerance family (sum slightly below 1, offsets just below 1) and checks count, range, monotonicity, zero-weight exclusion, the floor/ceil law and exact unbiasedness as a counting identity; every enumerated case is replayed into tools.systematic_resample with the uniform scripted, and multinomial draws of the real Resampler.run are validated by TLC on order ranks of the regenerated uniforms.",
+    note="Trusted: TLC; numpy's Mersenne-Twister uniforms and the stream consumption of numpy.random.choice (verified empirically at start-up); dyadic witnesses make double arithmetic exact at breakpoints.",
+    technique="TLA+ spec (Resample.tla) model-checked by TLC; enumerated states replayed into the implementation; TLC judges observed outcomes (ResampleTrace.tla)", design="DESIGN.md §4 C06"),
+ "C07": dict(level="model_checking",
+    text="PSRun.tla models particles as records of provenance ids; TLC checks HistCoherent/CurCoherent on the bounded model and refutes the code-shaped variants (mask applied to some fields only, -inf draws kept). Every event of real runs over the option lattice (kernel x resampler x clustering x scalar/vector/blobs x boundary types x metric) is validated by TLC against the clauses RS_WholeCopies, MP_Coherent, MB_SameSlots, SW_PropCoherent, SW_Update, ME_Slots, CM_Coherent of PSRunTrace.tla.",
+    note=sysnote("Test likelihoods are injective on the drawn points."),
+    technique="TLA+ system spec (PSRun.tla) model-checked by TLC + trace validation of recorded runs (PSRunTrace.tla)", design="DESIGN.md §4 C07"),
+ "C11": dict(level="model_checking",
+    text="PriorPhase.tla computes the warm-up evidence bookkeeping in exact rationals: TLC checks that admissible estimators stay in the convex hull of the per-batch supported fractions (Once, OneWhileNoInf) and refutes the add-the-correction-every-iteration design; every enumerated sequence of finite counts is replayed through the real pipeline at beta=0 with a scripted -inf pattern. PSRun clauses MP_NoInf, CM_NoInf, MP_LogzHull are validated by TLC on recorded runs of half-space targets.",
+    note=sysnote("The 'final evidence converges to the supported integral' clause is statistical and not claimed. Known finding: a prior batch with no finite draw at all."),
+    technique="TLA+ spec (PriorPhase.tla) model-checked by TLC; enumerated behaviours replayed into the implementation; trace validation (PSRunTrace.tla)", design="DESIGN.md §4 C11"),
+ "C12": dict(level="model_checking",
+    text="PSRun.tla Terminate clauses (TM_NearOne, TM_ESS, TM_Evidence) and the Posterior observation clauses (equal lengths, rows refer to the same stored particle, log-weights row-aligned, weights non-negative summing to one, uniform under resampling, arity) are evaluated by TLC on recorded runs; after every completed run all 2^4 flag combinations x 3 trimming parameter pairs are called.",
+    note=sysnote("ESS>=n_total compared with 1e-9 relative slack; evidence compared with an independent MIS reference at 1e-9."),
+    technique="TLA+ system spec (PSRun.tla) + trace validation of recorded runs and posterior() calls (PSRunTrace.tla)", design="DESIGN.md §4 C12"),
+ "C13": dict(level="model_checking",
+    text="Dispatch.tla: TLC explores every completion order of a worker pool and checks positional assembly and exact evaluation counts; every distinct order is replayed through the real SamplerCore._log_like with a pool-like object evaluating in that order (with and without blobs). PSRun clauses MP_Calls, ME_Calls, CallsExact are validated on recorded runs against the wrapped likelihood's own counter. Pair.tla: runs under one seed with scalar / vectorised / blobs / pool-like / pool=1 evaluation of a pointwise-identical likelihood must be bit-identical per committed iteration, in weights and in evidence.",
+    note=sysnote("Pool-like objects honour the map contract; real multiprocess pools (pool=int>1) only in the thorough tier."),
+    technique="TLA+ specs (Dispatch.tla, PSRun.tla, Pair.tla) model-checked by TLC; schedules replayed into the implementation; trace and pair validation", design="DESIGN.md §4 C13"),
+ "C14": dict(level="model_checking",
+    text="PSRun.tla carries the clusterer state and, for every proposal mode, the label it was fitted from; TLC checks LabelsCoherent on the bounded model and refutes the code-shaped variants (modes indexed by rank among occurring labels; predict on an unfitted clusterer). Recorded runs over cadence x cap x normalize x kernel x target are validated against TR_PredictFitted, TR_ModesOK, RS_LabelRange, MB_Labels, MB_ModesOK; the label a mode was fitted from is observed (rows handed to fit_mvstud looked up in the predicted labels).",
+    note=sysnote(""),
+    technique="TLA+ system spec (PSRun.tla) model-checked by TLC + trace validation of recorded runs (PSRunTrace.tla)", design="DESIGN.md §4 C14"),
  "C16": dict(
     level="model_checking",
     text="TLC enumerates Fold.tla exhaustively (all lattice vectors at resolutions M, all periodic/reflective/hard index assignments, 1-D and 2-row inputs) and checks the fold invariants and the symmetry of a symmetric walk on the folded space; every enumerated state is replayed into apply_boundary_conditions/check_bounds with exact doubles. IEEE-specific inputs (subnormals, +-0, ulp-neighbours of integers, |x| up to 1.8e308) are decided against the spec's definitions evaluated over exact rationals by an oracle that must reproduce every TLC state.",
     note="Trusted: TLC, IEEE-754 double arithmetic in numpy, exactness of k/M for dyadic M. The exact-rational oracle is validated against every enumerated spec state but is Python, not TLA+.",
     technique="TLA+ spec (Fold.tla) model-checked by TLC; all enumerated states replayed into the implementation; spec-derived exact oracle for IEEE inputs",
     design="DESIGN.md §4 C16"),
+ "C18": dict(level="model_checking",
+    text="Config.tla holds the abstract option lattice and Valid(c) transcribed from the documented constraints. A covering array of the valid product (pairwise quick / 3-wise thorough; strength measured and re-checked by TLC against the spec's own Domain) plus every one-factor-at-a-time invalid value is run on the real Sampler; TLC validates the observed outcome of each configuration against Valid (rejected at construction with zero likelihood calls / runs to completion) and the full trace of every valid run against PSRunTrace.tla (NoRaise and the run postconditions).",
+    note=sysnote("Covering-array strength is what is measured, not the full product."),
+    technique="TLA+ specs (Config.tla, PSRun.tla); covering-array runs of the implementation validated by TLC", design="DESIGN.md §4 C18"),
 }
 NA = {
  "C01": "ensemble statistics over seeds (bias of an estimator): no single behaviour can satisfy or violate it; TLC has no probability measure or real arithmetic",
